@@ -18,6 +18,7 @@ enum Op {
     Remove(Vec<u8>),
     RemoveAll,
     Get(Vec<u8>),
+    GetRange(Vec<u8>, u64, u64),
     Ckpt,
     Cleanup(Vec<String>),
 }
@@ -29,6 +30,7 @@ fn text(op: &Op) -> String {
         Op::Remove(k) => format!("remove:{}", hx(k)),
         Op::RemoveAll => "rrange:*:*".to_string(),
         Op::Get(k) => format!("get:{}", hx(k)),
+        Op::GetRange(k, s, e) => format!("grange:{}:{}:{}", hx(k), s, e),
         Op::Ckpt => "ckpt".to_string(),
         Op::Cleanup(hs) => format!("cleanup:{}", hs.join(",")),
     }
@@ -65,6 +67,13 @@ fn linearizable(initial: &BTreeMap<Vec<u8>, Vec<u8>>, evs: &[Event], final_diges
                 Op::Get(k) => match m.get(k) {
                     None => e.result == "absent",
                     Some(c) => e.result == format!("found_{}", hx(c)),
+                },
+                Op::GetRange(k, s, en) => match m.get(k) {
+                    None => e.result == "absent",
+                    Some(c) => {
+                        let l = c.len() as u64;
+                        e.result == format!("found_{}", hx(&c[(*s).min(l) as usize..(*en).min(l) as usize]))
+                    }
                 },
                 _ => true,
             };
@@ -119,7 +128,8 @@ pub fn conc_cases(s: &mut Sess, rng: &mut Rng, n: u64, prop: &'static str) {
                     0..=4 => Op::Put(k, c),
                     5 | 6 => Op::Remove(k),
                     7 => Op::RemoveAll,
-                    8..=10 => Op::Get(k),
+                    8 | 9 => Op::Get(k),
+                    10 => { let s = rng.below(3); Op::GetRange(k, s, s + *rng.pick(&[0u64, 1, 2, 100, u64::MAX / 2])) }
                     11 => Op::Ckpt,
                     12 => Op::Abort(k, c),
                     _ => if !orphans.is_empty() && t == 0 && prog.is_empty() { Op::Cleanup(orphans.clone()) } else { Op::Get(k) },
@@ -133,7 +143,7 @@ pub fn conc_cases(s: &mut Sess, rng: &mut Rng, n: u64, prop: &'static str) {
             programs[0].insert(0, Op::Cleanup(orphans.clone()));
         }
         for p in programs.iter().flatten() {
-            s.out.count(match p { Op::Put(..) => "cop.put", Op::Abort(..) => "cop.abort", Op::Remove(_) => "cop.remove", Op::RemoveAll => "cop.rrange", Op::Get(_) => "cop.get", Op::Ckpt => "cop.ckpt", Op::Cleanup(_) => "cop.cleanup" });
+            s.out.count(match p { Op::Put(..) => "cop.put", Op::Abort(..) => "cop.abort", Op::Remove(_) => "cop.remove", Op::RemoveAll => "cop.rrange", Op::Get(_) => "cop.get", Op::GetRange(..) => "cop.getrange", Op::Ckpt => "cop.ckpt", Op::Cleanup(_) => "cop.cleanup" });
         }
         // same-key / same-content concurrency statistics
         let puts: Vec<(usize, &Vec<u8>, &Vec<u8>)> = programs.iter().enumerate().flat_map(|(t, p)| p.iter().filter_map(move |o| if let Op::Put(k, c) = o { Some((t, k, c)) } else { None })).collect();
